@@ -94,7 +94,16 @@ def val_debugdep(ctx: Ctx) -> RuleResult:
     # the conditions under which the loop is reached say 'a description is in progress' and nothing else
     conds = reach_conditions(f.node, lp)
     if conds is not None:
-        extra = [(c_, pol_) for c_, pol_ in conds if "in_dag_description" not in norm_src(c_)]
+        # only conditions on the build state / the configuration count: `if not self.dependencies: return` is an optimisation
+        from .lck import BuildState
+
+        try:
+            bstate = set(ctx.memo("build_state", lambda: BuildState(ctx)).state)
+        except Undecided:
+            bstate = set()
+        watched = bstate | {"cfg", "DAG_PREFIX"}
+        extra = [(c_, pol_) for c_, pol_ in conds if "in_dag_description" not in norm_src(c_)
+                 and ({x.id for x in ast.walk(c_) if isinstance(x, ast.Name)} | {x.attr for x in ast.walk(c_) if isinstance(x, ast.Attribute)}) & watched]
         r.ob(not extra, {"validation reached under": [("" if pol_ else "not ") + norm_src(c_) for c_, pol_ in conds]})
         if extra:
             c_, pol_ = extra[0]
